@@ -31,7 +31,7 @@ TRUSTED = ['A1 float == real; A2 object arrays == float arrays; dependency contr
            'C07 (Richardson), C13 (dea3), C08 (selection) are re-executed here, not assumed']
 ASSUMPTIONS = ['steps h0 * ratio**-k with h0 > 0 (generator contract, C10: re-discharged on the real CStepGenerator in contract:generator[C,..]); g and the kernel polynomial of degree <= order+1']
 NOT_DECIDED = ['accuracy within a multiple of the error estimate on transcendental kernels and general analytic g']
-BOUNDED = ['limit-concrete: 121 concrete cases (calls carrying extra positional / keyword arguments through Limit.__call__, Limit.limit and Residue.__call__; three transcendental kernels x real / complex / array points x above / below x radial / spiral through Limit.__call__ and Limit.limit, an array mixing regular complex points with a singular one, Residue for p = 1..3 with explicit orders) in floating point, tolerance 1e-7 -- executed, not proved',
+BOUNDED = ['limit-concrete: 149 concrete cases (orders 5..8 with step ratios 3..8 where the Richardson system is ill-conditioned; the floating-point error state of the caller set to raise / warnings as errors; calls carrying extra positional / keyword arguments through Limit.__call__, Limit.limit and Residue.__call__; three transcendental kernels x real / complex / array points x above / below x radial / spiral through Limit.__call__ and Limit.limit, an array mixing regular complex points with a singular one, Residue for p = 1..3 with explicit orders) in floating point, tolerance 1e-7 -- executed, not proved',
            'array z0 of 2 elements, and one 2x3 non-contiguous view with a different limit at every point; NaN masks on 4 elements (all 16)']
 QUANTIFIED = 'z0, the coefficients c_j / of g (complex), the base step h0: universally quantified; order, pole order, path, method enumerated'
 
